@@ -213,6 +213,23 @@ def rule_units(ctx, py):
             args = ", ".join(pyfe.src(a) for a in r.value.args)
             for k_, v_ in zip(sel.keys, sel.values):
                 disp.setdefault(k_.value, "%s(%s)" % (pyfe.src(v_), args))
+    # the dispatcher itself answers nothing: an index it returns without going through a finder has not been compared with the
+    # sample times (a single-sample trajectory answered with 0 for every query, before or after the sample)
+    f0 = py.fn(T + "get_sample_index")
+
+    def arms(e):
+        if isinstance(e, ast.IfExp):
+            return arms(e.body) + arms(e.orelse)
+        return [e]
+    for r in [x for x in ast.walk(f0) if isinstance(x, ast.Return) and x.value is not None]:
+        for a_ in arms(r.value):
+            if isinstance(a_, ast.Constant) and a_.value is None:
+                continue
+            via = isinstance(a_, ast.Call) and ("_get_sample_index_" in pyfe.src(a_.func) or isinstance(a_.func, ast.Name) or
+                                                isinstance(a_.func, ast.Subscript) or (isinstance(a_.func, ast.Call)))
+            ctx.check(via, R, r, f0._qual, "return %s" % pyfe.src(a_)[:50], "the answer of one of the three finders",
+                      "get_sample_index returns `%s` itself, without comparing the query time with any sample time: the documented "
+                      "None cases (no sample at or before / at or after the time) are answered with an index" % pyfe.src(a_)[:40])
     want = {"closest": "self._get_sample_index_closest(t)", "infeq": "self._get_sample_index_infeq(t)",
             "supeq": "self._get_sample_index_supeq(t)"}
     for k, v in want.items():
@@ -224,8 +241,8 @@ def run(ctx):
     py = ctx.py
     rule_axes(ctx, py)
     rule_resolve(ctx, py)
-    rule_tiling(ctx, py)
     rule_units(ctx, py)
+    rule_tiling(ctx, py)
     # shared clauses: the state index (C13.INDEX) and the cell index of a position (C15.RADIX), which the accessors go through
     from ..core import borrow
     from . import c13, c15
